@@ -119,7 +119,7 @@ class Check:
         try:
             for c, mo in zip(cases, model):
                 want = None
-                for how in ('strings', 'files'):
+                for how in ('strings', 'files', 's3'):
                     io = impl.run_coll(c['docs'], True, c['strict'], how=how, tmpdir=tmp)
                     n += 1
                     if 'err0' in io:
